@@ -61,7 +61,7 @@ SEQ_ROOTS = {
     'fastq': [('s0', 'A', '!', '+s0'), ('seq_1 d', 'ACGTT', 'II#~5', '+'), ('x', 'GG', '+@', '+x')],
     'fasta2': [('s0', 'A'), ('seq_1 d', 'acgtnACGTN'), ('x', 'GG')],
 }
-EOLS = {'bed6': ['LF', 'CRLF'], 'fastq': ['LF', 'CRLF']}
+EOLS = {'bed6': ['LF', 'CRLF'], 'fastq': ['LF', 'CRLF'], 'sam': ['LF', 'CRLF'], 'sam_notags': ['LF', 'CRLF'], 'vcf_samples': ['LF', 'CRLF'], 'fasta2': ['LF', 'CRLF']}
 
 
 def root_formats():
